@@ -12,7 +12,7 @@ def run(ck, build):
     ck.rule("R-C02-MODE", "for setup_N, absorb_N, generate_tag_N and the six AEAD functions: one symbolic path summary per path class (prefix, generic loop iteration, residues 0..3) in the "
             "GF(2) term domain with the permutation uninterpreted; frame bits 0x10/0x30/0x50/0x70, 5 and 8/9/10 rounds, key word = NOT LE32, nonce words LE32(npub+0/4/8), absorbed and emitted "
             "bits, partial-block length injection and tag squeezes equal the reference model bit for bit; cursors advance in lock-step so the blocks are the consecutive 4-byte words of the input")
-    ck.rule("R-C02-SMALL", "independent of the loop structure: each of the six AEAD functions for EVERY message length 0..40, evaluated as straight path(s) with the length concrete and the data symbolic "
+    ck.rule("R-C02-SMALL", "independent of the loop structure: each of the six AEAD functions for EVERY message length 0..100, evaluated as straight path(s) with the length concrete and the data symbolic "
             "(one path per alignment class if the code tests alignment): the calls (setup 0x10, absorb 0x30/5 rounds, tag), every permutation input (frame bits 0x50, keyed rounds, chained state), every "
             "output byte, the length injection of the partial block, the tag position and the stored length are those of the specification; longer messages are R-C02-MODE's generic iteration")
     ck.rule("R-C02-PERM", "the three C permutation backends equal the bit-serial NLFSR specification for every round count >= 1 (C05's STEP/SCHED rules on their N0 IR)")
